@@ -1,2 +1,8 @@
 import Heathcliff.Props.C10
-#print axioms HC.C10.placeholder_isPow2
+#print axioms HC.C10.RNSBase.new_wf
+#print axioms HC.C10.crt_unique
+#print axioms HC.C10.compose_spec
+#print axioms HC.C10.compose_decompose
+#print axioms HC.C10.decompose_compose
+#print axioms HC.C10.fastConvert_spec
+#print axioms HC.C10.decompose_spec_of
